@@ -23,6 +23,17 @@ type Sess struct {
 // StartClient creates server and client and connects (on the calling driver
 // task). ok is false if Connect failed (precondition of most scenarios).
 func StartClient(e *Engine, o ClientOpts, scripts []NegScript, prep func(w *CW, s *Server)) (*Sess, bool) {
+	s, ok := StartClientNoSettle(e, o, scripts, prep)
+	if ok {
+		e.Sleep(50 * time.Millisecond)
+		s.Base = s.Conn.End.TotalWritten
+	}
+	return s, ok
+}
+
+// StartClientNoSettle is StartClient without the settling pause: it returns
+// at the simulated instant Connect returned.
+func StartClientNoSettle(e *Engine, o ClientOpts, scripts []NegScript, prep func(w *CW, s *Server)) (*Sess, bool) {
 	srv := NewServer(e, SimDomain)
 	srv.Certs = sharedCerts()
 	srv.Scripts = scripts
@@ -41,7 +52,6 @@ func StartClient(e *Engine, o ClientOpts, scripts []NegScript, prep func(w *CW, 
 	}
 	s.Conn = srv.Conns[len(srv.Conns)-1]
 	s.Cli = s.Conn.Pipe.Cli
-	e.Sleep(50 * time.Millisecond)
 	s.Base = s.Conn.End.TotalWritten
 	return s, true
 }
